@@ -300,8 +300,8 @@ def obs_split(marshal, sig):
 
 
 def obs_first(marshal, sig):
-    g = marshal.genCompleteTypes(sig)
     try:
+        g = marshal.genCompleteTypes(sig)       # (an eager implementation raises here, a lazy one at next())
         p = next(g)
     except Exception as e:
         return 'err ' + type(e).__name__
@@ -1679,9 +1679,9 @@ def history_lines(h):
 
 
 def obs_take(marshal, sig, k):
-    g = marshal.genCompleteTypes(sig)
     ps = []
     try:
+        g = marshal.genCompleteTypes(sig)
         for _ in range(k):
             ps.append(next(g))
     except StopIteration:
